@@ -93,7 +93,7 @@ def encode(cfg, stmt, env, addr, zones):
                 a = iod['offset']
                 args.append((use.get('index_value', E.bvval(0)), a['size'], a['byte_align'], a.get('endian', default_endian)))
         if code is not None:
-            pos = od['bytecode'].get('position', 'suffix')
+            pos = od.get('bytecode', {}).get('position', 'suffix')
             if pos == 'prefix':
                 prefix_codes.insert(0, code)
             else:
